@@ -281,6 +281,26 @@ Theorem C01_token_step_peek_reclaim : forall t s s' o, Inv s -> hsem (g_sh s) <>
 Proof. exact tok2_step. Qed.
 Print Assumptions C01_token_step_peek_reclaim.
 
+(* the same with the discipline as a condition on the RUN instead of on the program text: the IPC server reclaims only
+   after a peek that succeeded (lib/ipcs.c:_process_request_), which a static call list cannot express.  If, after every
+   prefix of the schedule, a reader that is between calls and holds a peeked chunk has qb_rb_chunk_reclaim as its next
+   call, the token bound holds - whatever the other calls are and however the peeks turned out *)
+Theorem C01_tokens_when_peeks_are_reclaimed : forall h pw pr sched c0, wf_ring h -> hsem h = Some c0 ->
+  every_prefix (fun x => next_is_reclaim (g_r x)) sched (init h pw pr) ->
+  let s := exec sched (init h pw pr) in
+  exists c, hsem (g_sh s) = Some c /\
+            c + held (g_r s) + wtok (g_w s) >= Z.of_nat (length (g_pub s)) - Z.of_nat (length (g_got s)) /\
+            ((length (g_got s) < length (g_pub s))%nat -> 0 < c \/ held (g_r s) = 1 \/ wtok (g_w s) = 1).
+Proof. exact all_tokens_dyn. Qed.
+Print Assumptions C01_tokens_when_peeks_are_reclaimed.
+
+Example C01_example_peeks_reclaimed_run :
+  every_prefix (fun x => next_is_reclaim (g_r x)) ex4_sched ex4_init /\
+  let s := exec ex4_sched ex4_init in
+  hsem (g_sh s) = Some 0 /\ length (g_pub s) = 2%nat /\ length (g_got s) = 1%nat /\ held (g_r s) = 1.
+Proof. exact ex4_ok. Qed.
+Print Assumptions C01_example_peeks_reclaimed_run.
+
 Example C01_example_peek_reclaim :
   wf_ring ex_ring /\ hsem ex_ring = Some 0 /\
   r_pc (g_r ex3_state) = RCall /\ r_have (g_r ex3_state) = true /\ hsem (g_sh ex3_state) = Some 1 /\
